@@ -83,6 +83,24 @@ def cases(draw, tier="quick"):
             "randomize_action_order": draw(st.booleans()), "randomize_nextstate_order": draw(st.booleans())}
 
 
+def _large_case(t):
+    import random
+    spec, hk, seed, rao, rno = t
+    spec = dict(spec, explicit_states=None)
+    r = random.Random(seed)
+    return {"mdp": spec, "heuristic": {"kind": hk, "slack": [r.choice([0, 0, 0.05, 0.5, 1, 3]) for _ in range(spec["n"])],
+                                       "const_extra": r.choice([0, 0.5, 2])},
+            "seed": seed % (10 ** 6), "randomize_action_order": rao, "randomize_nextstate_order": rno}
+
+
+def large_cases(tier):
+    """16-45 states: deep solution graphs, many expansions, large dynamic-programming sub-problems"""
+    from vpm.gen.mdp import large_mdp_specs
+    return st.tuples(st.one_of(large_mdp_specs("dproper", max_actions=3, max_out=3), large_mdp_specs("ssp", max_actions=3, max_out=3),
+                               large_mdp_specs("discounted", max_actions=3, max_out=3, gammas=[0.5, 0.9, 0.95])),
+                     st.sampled_from(["const", "exact", "slack", "slack", "tie"]), st.integers(0, 2 ** 32), st.booleans(), st.booleans()).map(_large_case)
+
+
 def policy_closure(ctx, name, policy, spec, ref, view):
     """BFS from the positive initial support following every action in the support of the policy and
     every positive-probability successor (absorbing states are not left). Returns policy matrix."""
@@ -199,4 +217,6 @@ def prop_reuse(case, ctx):
 PROPS = [Prop("reuse", lambda tier: reuse_cases(tier), prop_reuse, quick=300, thorough=18000,
               doc="an LAOStar object reused on a second MDP gives the same result as a fresh one"),
          Prop("lao", lambda tier: cases(tier), prop_lao, quick=4000, thorough=240000,
-              doc="LAO* convergence, optimal initial value, upper-bound invariant, closed optimal policy")]
+              doc="LAO* convergence, optimal initial value, upper-bound invariant, closed optimal policy"),
+         Prop("lao_large", large_cases, prop_lao, quick=150, thorough=9000,
+              doc="the same on MDPs with 16-45 states (reference optimum by certified policy iteration)")]
